@@ -58,6 +58,15 @@ INFO = {
  'r1': ('C02', 'sequence_type::cost(): a passed-over predecessor counts only if it is optional (lower bound 0)', 'satisfied-but-unsaturated predecessor with lower bound >= 1, a later step matching the call and a competing expectation of no higher true cost'),
  'r2': ('C15', 'sequence_type::validate_match(), empty-sequence branch: severity::nonfatal instead of the caller\'s severity', 'expectation retired from its sequence, the whole sequence drained, then that still-live expectation is called'),
  'r3': ('C07', 'run_actions(): the forbidden-call report prints params_string(val) (the expected values) instead of the actual arguments', 'forbidding expectation written with a wildcard or matcher parameter'),
+ 's1': ('C03', 'call_matcher::is_satisfied(): `return !is_unfulfilled();` instead of asking the handler', 'expectation below its lower bound that was named in an earlier no-match report, or whose mock object died first, then is_satisfied() is queried'),
+ 's2': ('C08', 'run_actions(): `if (reported) return;` in front of the side-effect loop', 'expectation named in an earlier no-match report (caught by the test), later accepted call: its side effects do not run'),
+ 's3': ('C16', 'reporter<T>::sendOk(): the OK reporter is copied into a function-local static at the first OK report', 'OK reporter replaced with set_reporter(rf, orf) after an OK report has already been delivered'),
+ 't1': ('C13', '~lifetime_monitor: `if (!died && object_monitor == this)`', 'two requirements on one object, both released while the object is alive: the one the object does not point to ends without its still-alive report'),
+ 't2': ('C14', '~lifetime_monitor: `object_monitor = nullptr` moved out of the `if (!died)` block', 'object destroyed first, requirement released later: write into the dead object'),
+ 't3': ('C17', '~trace_agent: traces only `if (t && t == tracer_obj())`', 'a further tracer is created during the call (e.g. in a side effect) and outlives it: the call is not traced'),
+ 'u1': ('C04', '~call_matcher: reports only `if (is_unfulfilled() && !std::uncaught_exception())`', 'scope of an unfulfilled expectation left by an exception'),
+ 'u2': ('C05', 'sequence_handler<N>::retire_predecessors(): only `if (is_satisfied())` (the third site of F1)', 'lower bound >= 2, satisfied-but-unsaturated predecessor called again between the first call and the one that reaches the lower bound'),
+ 'u3': ('C06', '~sequence_type(): satisfied expectations are unlinked without being listed', 'sequence object dies before satisfied-but-open expectations registered in it'),
 }
 rows = []
 for d in sorted(glob.glob(os.path.join(HERE, 'seeded', '*'))):
